@@ -33,7 +33,14 @@ def replay_finding(e):
 def main(ctx):
     search = pc.run(ctx, THEOREM_MODULES, pj.pybind_api, direct,
                     "set/order/names/placement of registered bindings differs from the declared API",
-                    "sub-module variable discipline violated", cfg_kw=dict(typedef_same_ns=True, unique_ns=True))
+                    "sub-module variable discipline violated", cfg_kw=dict(typedef_same_ns=True, unique_ns=True),
+                    # sibling namespaces whose names are string prefixes of each other (gtsam / gtsam_unstable / gtsam2):
+                    # only whole path components may decide what belongs to the top module
+                    extra_streams=[(dict(ns_pool=["gtsam", "gtsam_unstable", "gtsam2", "gt", "a", "ab"], max_depth=3,
+                                         extra_kinds=['ns', 'ns', 'ns', 'cls'], max_decls=5), 0.4),
+                                   # `…Values` containers with insert(size_t, X): only gtsam::Values gets the extra
+                                   # `insert_<name>` bindings
+                                   (dict(p_values_insert=0.6, ns_pool=["gtsam", "other", "gtsam"], extra_kinds=['ns', 'cls', 'cls']), 0.3)])
     for e in ctx.known:
         still = replay_finding(e)
         if e.get("kind") == "fixed":
